@@ -92,7 +92,8 @@ fn args_for(t: &Ty) -> Vec<Variable> {
         Ty::Void => vec![Variable::Void],
         Ty::Any => eval_all(&[
             "1", "\"s\"", "1.0", "2.5", "true", "()", "[1, \"a\", 2.0]", "(1, \"b\", [2.5])", "[]", "[[1.0]]", "mut 1", "struct{}", "mut \"a b\"", "mut 2.0", "mut any \"1\"", "mut any 1",
-            "mut [1.5, 2.0]", "(mut 2.0, 1)", "[mut 2.0]", "mut mut 1.0", "mut (1.0, 2)", "mut \"\"",
+            "mut [1.5, 2.0]", "(mut 2.0, 1)", "[mut 2.0]", "mut mut 1.0", "mut (1.0, 2)", "mut \"\"", "[\"C:\\\\0ld\", \"x\"]", "(\"a\\\\0\", 1)", "[\"q\\\"uote\", \"tab\\t\", \"nul\\u{0}7\"]",
+            "mut \"back\\\\0slash\"",
         ]),
         Ty::Union(ms) => ms.iter().flat_map(args_for).collect(),
         Ty::Arr(e) => match &**e {
@@ -298,8 +299,12 @@ fn render(v: &Variable, top: bool) -> Option<String> {
         Variable::String(s) => {
             if top {
                 s.to_string()
+            } else if s.chars().all(|c| c == '\\' || c == '"' || c == '\n' || c == '\t' || c == '\0' || (' '..='~').contains(&c) || c.is_alphabetic()) {
+                // inside a container a string is shown as the literal that denotes it (C20's subject in
+                // general; here the plain cases: letters, digits, blanks, quote, backslash, \n \t \0)
+                lit::escape_string(s)
             } else {
-                return None; // escaping rules are C20's subject
+                return None;
             }
         }
         Variable::Void => "()".into(),
